@@ -1,16 +1,16 @@
 #!/bin/bash
 # tools_seedtest.sh <PROP> <patch.diff> [tier]  -- run a check against a scratch worktree of /repo with a seeded change applied
 # (evidence and replays of such runs go to /tmp so the committed evidence is not disturbed)
-prop=$1; patch=$2; tier=${3:-quick}
+prop=$1; patch=$(realpath "$2"); tier=${3:-quick}
 wt=/tmp/wt_seed_$$_$RANDOM
 git -C /repo worktree add -q "$wt" HEAD || exit 3
 if ! git -C "$wt" apply "$patch"; then echo "PATCH-DOES-NOT-APPLY $patch"; git -C /repo worktree remove --force "$wt"; exit 3; fi
 mkdir -p /tmp/seed_ev /tmp/seed_replays
-cd /verif
+cd "${VERIF_HOME:-/verif}"
 VERIF_REPO=$wt PYTHONPATH=$wt/src VERIF_EVIDENCE_DIR=/tmp/seed_ev VERIF_REPLAY_DIR=/tmp/seed_replays ./check "$prop" --tier "$tier" 2>&1 | grep -v "^KNOWN-FINDING" | tail -3 | cut -c1-400
 rc=${PIPESTATUS[0]}
 git -C /repo worktree remove --force "$wt"
 # generated model parts were re-translated from the mutated worktree: restore the committed copies
-git -C /verif checkout -- lean/CogentModel/Gen
+git -C "${VERIF_HOME:-/verif}" checkout -- lean/CogentModel/Gen
 echo "seedtest prop=$prop patch=$patch rc=$rc"
 exit $rc
